@@ -320,6 +320,10 @@ func (fgen *funcGen) irCallInst(new ir.Instruction, old *ast.CallInst) error {
 	}
 	// The callee type is always pointer to function type.
 	ptrToSig := types.NewPointer(sig)
+	if n, ok := old.AddrSpace(); ok {
+		// (optional) Address space of the callee.
+		ptrToSig.AddrSpace = irAddrSpace(n)
+	}
 	callee, err := fgen.irValue(ptrToSig, old.Callee())
 	if err != nil {
 		return errors.WithStack(err)
